@@ -241,7 +241,7 @@ def run_check(pid, tier, seed):
                 tail = open(r["log"], errors="replace").read()[-4000:]
             except OSError:
                 pass
-            wit = st["crash_witness"].format(shard=_argv[_argv.index("-shard") + 1])
+            wit = st.get("crash_witness", "").format(shard=_argv[_argv.index("-shard") + 1])
             whex = ""
             try:
                 b = open(wit, "rb").read()
@@ -252,7 +252,7 @@ def run_check(pid, tier, seed):
             m = re.search(r"(fatal error: [^\n]*|panic: [^\n]*|signal: [^\n]*)", tail)
             reason = m.group(1) if m else "child exited with status %s without a result" % r["rc"]
             r["res"] = dict(evaluations=0, samples=[], counters={}, violations=[dict(sig="crash:" + reason[:60],
-                            desc="child process died while decoding (%s); input %s" % (reason, whex[:200]),
+                            desc="%s (%s); witness input %s" % (st.get("crash_desc", "child process died"), reason, whex[:200] or "n/a"),
                             replay=dict(check=pid, input_full_hex=whex, log_tail=tail[-1500:]))], n_violations=1, inconclusive=[])
             continue
         if r["res"] is None:
